@@ -189,7 +189,7 @@ func cdiResolveDevices(ociSpecFiles ...string) error {
 		err        error
 	)
 
-	cache, _ = cdi.NewCache()
+	cache = cdi.GetDefaultCache()
 
 	for _, ociSpecFile := range ociSpecFiles {
 		ociSpec, err = readOCISpec(ociSpecFile)
